@@ -51,7 +51,7 @@ Init == /\ expect = [t |-> "none"]
              /\ (g = "zero" => op \in ProductOps \cup SolveOps \cup {"elementwise_divide", "elementwise_divide_c"})
              /\ (g \in {"exact1", "exact2"} => op \in ProductOps /\ sc = "unit")
              /\ (cx => ComplexOK(op))
-             /\ (be = "cpp" => op \in {"fast_matvec", "amen_solve"} /\ ~cx)
+             /\ (be = "cpp" => op \in {"fast_matvec", "amen_solve"} /\ (cx => op = "fast_matvec"))   \* (complex: the DMRG class of C11)
              /\ (data = "decay" => op \in ProductOps \cup SolveOps)
              \* data = "col1": amen_mm with a second operand whose column modes are all 1 (the result is still a TT matrix)
              /\ (data = "col1" => op = "amen_mm" /\ sc = "unit")
